@@ -64,6 +64,15 @@ def universe():
         for k in ('abs', 'bare', 'backslash'):
             for ef in (False, True):
                 va.append(('va', spell(d, 'abs' if k != 'backslash' else k), spell(s_, k), ef))
+    # paths relative to the caller's directory (calls made from <repo>/tests): every top-level schema with its own samples
+    for s_ in top:
+        stem = os.path.basename(s_)[:-5]
+        mine = [d for d in docs if os.path.basename(d).startswith(stem)][:2]
+        for d in mine:
+            for ef in (False, True):
+                va.append(('va', '../' + d, '../' + s_, ef))
+        sv.append(('sv', '../' + s_, 'Draft4Validator', False))
+        sv.append(('sv', '../' + s_, 'Draft4Validator', True))
     return sv, va, docs, top
 
 
@@ -71,7 +80,13 @@ def do_call(c):
     """Execute one call in this process; returns 'True' / 'False' / 'raises:<Type>'."""
     u = mod('utils')
     buf = io.StringIO()
+    # a path spelled '../...' is relative to the caller's directory: such calls are made from <repo>/tests, like the
+    # project's own test-suite does
+    here = os.getcwd()
+    updir = any(isinstance(x, str) and x.startswith('../') for x in c[1:3])
     try:
+        if updir:
+            os.chdir(os.path.join(REPO, 'tests'))
         with contextlib.redirect_stdout(buf):
             if c[0] == 'sv':
                 r = u.schema_valid(c[1], validator=getattr(jsonschema, c[2]), expect_failure=c[3])
@@ -80,6 +95,9 @@ def do_call(c):
         return repr(r)
     except Exception as e:
         return 'raises:' + type(e).__name__
+    finally:
+        if updir:
+            os.chdir(here)
 
 
 def clear_caches():
